@@ -44,6 +44,9 @@ var (
 	// ErrSimWriteEOF wraps io.EOF: it is not io.EOF itself and must be treated as
 	// any other transport error
 	ErrSimWriteEOF = fmt.Errorf("simnet: injected write error (%w)", io.EOF)
+	// ErrSimLookalike: a transport's own error that merely has the type and the
+	// text of a library sentinel; it is not that sentinel
+	ErrSimLookalike = errors.New(mqtt.ErrClosedTransport.Error())
 )
 
 // Conn is the simulated transport of one connection.
@@ -189,7 +192,8 @@ func (c *Conn) logAttempt(p []byte, why string) {
 	c.s.log(Rec{Kind: "txfail", Conn: c.k, P: pkt, Err: why})
 }
 
-// Write implements io.Writer. It never parks (see DESIGN 3.3).
+// Write implements io.Writer. It never parks (see DESIGN 3.3), except for the
+// writeStall fault in scenarios without a second writer.
 func (c *Conn) Write(p []byte) (int, error) {
 	s := c.s
 	c.mu.Lock()
@@ -207,6 +211,27 @@ func (c *Conn) Write(p []byte) (int, error) {
 		c.logAttempt(p, ErrSimBroken.Error())
 		return 0, ErrSimBroken
 	}
+	if f := s.faultAt("writeStall", c.k, w); f != nil {
+		// a peer that stopped reading: this Write stays blocked until the
+		// connection is ended by either side. Only used by scenarios in which no
+		// other writer exists while it lasts (a goroutine queueing on the library's
+		// write lock is not durably blocked, see DESIGN 3.3).
+		s.fire("writeStall")
+		c.mu.Unlock()
+		s.log(Rec{Kind: "wstall", Conn: c.k, N: w})
+		c.mu.Lock()
+		for !c.localClosed && c.peerClosed == 0 {
+			c.cond.Wait()
+		}
+		werr := ErrSimBroken
+		if c.localClosed {
+			werr = ErrSimClosed
+		}
+		c.mu.Unlock()
+		s.log(Rec{Kind: "write", Conn: c.k, N: w, V: int64(len(p)), Err: werr.Error()})
+		c.logAttempt(p, werr.Error())
+		return 0, werr
+	}
 	if f := s.faultAt("writeErr", c.k, w); f != nil {
 		pre := f.Prefix
 		if pre >= len(p) {
@@ -222,6 +247,9 @@ func (c *Conn) Write(p []byte) (int, error) {
 		werr := ErrSimWrite
 		if f.Code == 1 {
 			werr = ErrSimWriteEOF
+		}
+		if f.Code == 3 {
+			werr = ErrSimLookalike
 		}
 		s.log(Rec{Kind: "write", Conn: c.k, N: w, V: int64(len(p)), Err: werr.Error(), S: fmt.Sprintf("prefix=%d", pre), B: true})
 		c.logAttempt(p, werr.Error())
